@@ -164,7 +164,7 @@ fn faults<F: Family>(p: &F::Packet, t: &mut Tape, ctx: &mut Ctx) -> CaseResult {
 
 fn case<F: Family>(input: &Input, ctx: &mut Ctx) -> CaseResult {
     let mut t = Tape::new(input.tape());
-    let cfg = if ctx.thorough && t.chance(1, 6) { GenCfg::MEDIUM } else { GenCfg::SMALL };
+    let cfg = crate::gen::cfg_mix(&mut t, ctx.thorough);
     let p = F::gen(&mut t, &cfg).map_err(|e| Violation::new(e.0))?;
     faults::<F>(&p, &mut t, ctx)
 }
